@@ -12,7 +12,7 @@ theorem holds for every `Env`.
 -/
 import TraitsVerif.Lemmas.ValOrder
 import TraitsVerif.Lemmas.ValCSrc7
-import TraitsVerif.Lemmas.ValPySrc2
+import TraitsVerif.Lemmas.ValPySrc3
 import TraitsVerif.Generated.ValidateTables
 namespace TraitsVerif.Props.C03
 open TraitsVerif TraitsVerif.Py.Value TraitsVerif.Model.Val
@@ -317,16 +317,16 @@ theorem C03_fast_is_source_tuple (E : Env) (hA : AdaptSome E) (cdflt : Val) (fue
 
 open TraitsVerif.Model.PyVSrc in
 /-- `pyValidate` is the interpretation of the source text of the Python `validate` methods:
-for every covered trait type (`pyCovered2`: Int, Float, Complex, Str, Bytes, Bool, CInt …
-CBool, float Range with every bound / exclusivity combination (NaN included), Enum, Map,
+for every covered trait type (`pyCovered3`: Int, Float, Complex, Str, Bytes, Bool, CInt …
+CBool, float and int Range with every bound / exclusivity combination (NaN included), Enum, Map,
 Instance in every adapt mode, Type, This, the None member of Union, and their Base* classes)
 and every value,
 running the translated method of trait_types.py the handler's class defines, with the
 attributes its constructor stored, gives exactly `pyValidate E t v`. -/
 theorem C03_py_is_source (E : Env) (hE : CastIdem E) (hA : TraitsVerif.Model.CSrc.AdaptSome E)
-    (t : TraitType) (v : Val) (h : pyCovered2 t = true) :
+    (t : TraitType) (v : Val) (h : pyCovered3 t = true) :
     srcPy E t v = some (pyValidate E t v) :=
-  srcPy_eq2 E hE hA t v h
+  srcPy_eq3 E hE hA t v h
 
 open TraitsVerif.Model.CSrc TraitsVerif.Model.PyVSrc in
 /-- The property statement literally about the two SOURCES: under the conditions of
@@ -337,12 +337,12 @@ theorem C03_sources_agree_partial (E : Env) (hE : CastIdem E) (hA : AdaptSome E)
     (inner : Desc → Val → Res) (cdflt : Val) (fuel : Nat) (t : TraitType) (d : Desc) (v : Val)
     (hd : descOf E t = some d) (hc : t.clean = true) (hv : v.notTupleSub = true)
     (hr : ∀ e, pyValidate E t v ≠ .raised e) (hok : descOk E inner cdflt fuel d)
-    (hp : pyCovered2 t = true) :
+    (hp : pyCovered3 t = true) :
     srcAlone E inner cdflt fuel d v = (srcPy E t v).map norm := by
   rw [C03_source_agrees_python_partial E hE hA inner cdflt fuel t d v hd hc hv hr hok,
     C03_py_is_source E hE hA t v hp]
   rfl
 
-example : TraitsVerif.Model.PyVSrc.pyCovered2 (.noFast (.rangeF (some (.fin 0)) none true false)) = true := rfl
+example : TraitsVerif.Model.PyVSrc.pyCovered3 (.noFast (.rangeI (some 0) none true false)) = true := rfl
 
 end TraitsVerif.Props.C03
